@@ -234,7 +234,15 @@ fn run_mem(c: &Case, max: Option<usize>, ops: &[&str]) -> String {
     let mut fails = Vec::new();
     let mut res = Vec::new();
     for o in ops {
-        res.push(mem_op(&mut st, c, o, &mut refm, &mut refpins, &uni, &mut fails));
+        // a panic inside the implementation is an oracle verdict for this op, not the end of the run
+        match catch(std::panic::AssertUnwindSafe(|| mem_op(&mut st, c, o, &mut refm, &mut refpins, &uni, &mut fails))) {
+            Ok(r) => res.push(r),
+            Err(_) => {
+                fails.push(format!("panic:{}", o.split(':').next().unwrap_or("?")));
+                res.push("panic".into());
+                break;
+            }
+        }
     }
     if let Some(m) = max {
         if st.is_over_budget() != (st.byte_count() > m) {
@@ -335,7 +343,7 @@ fn run_disk(c: &Case, ops: &[&str]) -> String {
     };
     for tok in ops {
         let f: Vec<&str> = tok.split(':').collect();
-        let r = match f[0] {
+        let r = catch(std::panic::AssertUnwindSafe(|| match f[0] {
             "p" => {
                 let b = &c.pool[f[1].parse::<usize>().unwrap()];
                 match st.put(b) {
@@ -445,7 +453,6 @@ fn run_disk(c: &Case, ops: &[&str]) -> String {
             },
             "r" => {
                 let before: Vec<String> = uni.iter().map(|h| disk_get_tok(&st.get(&bh(h)))).collect();
-                drop(st);
                 st = DiskTier::open(&root).expect("reopen");
                 refpins.clear();
                 let after: Vec<String> = uni.iter().map(|h| disk_get_tok(&st.get(&bh(h)))).collect();
@@ -479,6 +486,14 @@ fn run_disk(c: &Case, ops: &[&str]) -> String {
                 "-".into()
             }
             _ => panic!("disk op {tok}"),
+        }));
+        let r = match r {
+            Ok(r) => r,
+            Err(_) => {
+                fails.push(format!("panic:{}", f[0]));
+                res.push("panic".into());
+                break;
+            }
         };
         res.push(r);
         if st.pinned_count() != refpins.len() {
@@ -569,7 +584,7 @@ fn run_idx(c: &Case, max: Option<usize>, coords: &[SemanticBlobCoordinate], ops:
     let canon: Vec<usize> = (0..coords.len()).map(|i| (0..=i).find(|&j| coords[j] == coords[i]).unwrap()).collect();
     for tok in ops {
         let f: Vec<&str> = tok.split(':').collect();
-        let r = match f[0] {
+        let r = catch(std::panic::AssertUnwindSafe(|| match f[0] {
             "R" => {
                 let ci: usize = f[1].parse().unwrap();
                 let b = &c.pool[f[2].parse::<usize>().unwrap()];
@@ -583,7 +598,7 @@ fn run_idx(c: &Case, max: Option<usize>, coords: &[SemanticBlobCoordinate], ops:
                     }
                     (Ok(d), Some(e)) => {
                         if e != b {
-                            fails.push("retain-accepted-different-content-under-same-coordinate".into());
+                            fails.push("retain-accepted-conflicting-bytes".into());
                         }
                         if *d.content_hash.as_bytes() != b3(e) || d.byte_len != e.len() as u64 {
                             fails.push("retain-descriptor-wrong".into());
@@ -617,7 +632,7 @@ fn run_idx(c: &Case, max: Option<usize>, coords: &[SemanticBlobCoordinate], ops:
                 match (&r, first.get(&canon[ci])) {
                     (Ok(rb), Some(e)) => {
                         if &*rb.bytes != e.as_slice() {
-                            fails.push("load-returned-content-of-another-coordinate-or-altered".into());
+                            fails.push("load-returns-other-bytes".into());
                         }
                         if b3(&rb.bytes) != *rb.descriptor.content_hash.as_bytes()
                             || rb.descriptor.byte_len != rb.bytes.len() as u64
@@ -709,6 +724,14 @@ fn run_idx(c: &Case, max: Option<usize>, coords: &[SemanticBlobCoordinate], ops:
                 "-".into()
             }
             _ => mem_op(&mut st, c, tok, &mut refm, &mut refpins, &uni, &mut fails),
+        }));
+        let r = match r {
+            Ok(r) => r,
+            Err(_) => {
+                fails.push(format!("panic:{}", f[0]));
+                res.push("panic".into());
+                break;
+            }
         };
         res.push(r);
     }
@@ -1442,6 +1465,8 @@ mod exp {
 }
 
 fn main() {
+    // panics are reported in the result line (oracle=FAIL:panic:...), not on stderr
+    std::panic::set_hook(Box::new(|_| {}));
     for line in read_cases() {
         let m = kv(&line);
         let kind = m.get("kind").map(String::as_str).unwrap_or("mem");
@@ -1454,7 +1479,7 @@ fn main() {
         let opss = m.get("ops").cloned().unwrap_or_default();
         let ops: Vec<&str> = items(&opss);
         let max: Option<usize> = m.get("max").and_then(|s| s.parse().ok());
-        let out = match kind {
+        let out = catch(std::panic::AssertUnwindSafe(|| match kind {
             "mem" => run_mem(&c, max, &ops),
             "disk" => run_disk(&c, &ops),
             "exp" => exp::run(&m, &c),
@@ -1465,7 +1490,8 @@ fn main() {
                 run_idx(&c, max, &coords, &ops)
             }
             _ => panic!("kind {kind}"),
-        };
+        }))
+        .unwrap_or_else(|e| format!("res=panic:{} oracle=FAIL:panic:case", e.replace([' ', ','], "_")));
         println!("{out}");
     }
 }
